@@ -78,6 +78,9 @@ pub const TE_VALUES: &[&str] = &[
     "x-chunked",
     "deflate;q=0.5",
     "identity;q=1.000, chunked;q=0.999",
+    "gzip;q=NaN, chunked;q=0.5",
+    "chunked;q=NaN, identity;q=NaN",
+    "identity;q=inf, chunked;q=0.5",
 ];
 
 #[derive(Clone, Debug)]
@@ -136,14 +139,23 @@ pub fn execute(c: &Case, tag: u64, extra_headers: &[(String, String)]) -> Outcom
     }
     rq_headers.push(Header::from_bytes(&b"Accept"[..], &b"*/*"[..]).unwrap());
     let mut out = Vec::new();
-    let r = resp.raw_print(
-        &mut out,
-        HTTPVersion(c.version.0, c.version.1),
-        &rq_headers,
-        c.head,
-        if c.upgrade { Some("vproto") } else { None },
-    );
-    Outcome { out, result: r.map_err(|e| e.to_string()) }
+    let r = std::panic::catch_unwind(std::panic::AssertUnwindSafe(|| {
+        resp.raw_print(
+            &mut out,
+            HTTPVersion(c.version.0, c.version.1),
+            &rq_headers,
+            c.head,
+            if c.upgrade { Some("vproto") } else { None },
+        )
+    }));
+    let result = match r {
+        Ok(r) => r.map_err(|e| e.to_string()),
+        Err(_) => {
+            let p = crate::env::panics_take();
+            Err(format!("PANIC in raw_print: {}", p.last().map(|x| format!("{} at {}", x.message, x.location)).unwrap_or_default()))
+        }
+    };
+    Outcome { out, result }
 }
 
 /// Observed framing decision: Ok(Some(coding)) / Ok(None) = neither header / Err = malformed.
@@ -355,7 +367,7 @@ pub fn grid() -> Vec<Case> {
 
 fn random_te(rng: &mut Rng) -> String {
     let names = ["chunked", "identity", "CHUNKED", "Identity", "gzip", "trailers", "deflate", "x", "chunkedd"];
-    let qs = ["", ";q=1", ";q=0.9", ";q=0.5", ";q=0.001", ";q=0", ";q=0.0", ";q=1.0", ";q=abc", ";q=", ";Q=0.3", ";q=0.75", ";x=y", " ; q=0.3", ";q=0.25;x=1"];
+    let qs = ["", ";q=1", ";q=0.9", ";q=0.5", ";q=0.001", ";q=0", ";q=0.0", ";q=1.0", ";q=abc", ";q=", ";Q=0.3", ";q=0.75", ";x=y", " ; q=0.3", ";q=0.25;x=1", ";q=NaN", ";q=inf", ";q=-1", ";q=1e9"];
     let n = rng.range(1, 4);
     let mut parts = Vec::new();
     for _ in 0..n {
